@@ -38,7 +38,7 @@ Init == /\ prov \in { "derived", "supplied" }
 Materialise(v) ==
     /\ phase = "src" /\ nPre < MaxPre /\ v \notin srcStore
     /\ srcStore' = srcStore \cup Needs(v)
-    /\ nPre' = nPre + 1
+    /\ nPre' = IF WithHist THEN nPre + 1 ELSE nPre
     /\ hist' = Note(<< "mat", v, srcStore' >>)
     /\ UNCHANGED << prov, phase, kind, shape, resStore, resTag, attrs, last, nAcc >>
 
@@ -46,12 +46,13 @@ Materialise(v) ==
 ShapesOf(k) == IF k = "face" THEN Shapes ELSE { "proper", "identity" }
 Slice(k, s) ==
     /\ phase = "src" /\ s \in ShapesOf(k)
-    /\ srcStore' = srcStore \cup SliceTouches(k)
+    /\ LET touched == srcStore \cup SliceTouches(k)
+       IN /\ srcStore' = IF WithHist THEN touched ELSE {}      \* not needed any more once the result exists
+          /\ resStore' = ResStoreAfterSlice(Mech, touched)
+          /\ hist' = Note(<< "slice", k, s, touched, resStore' >>)
     /\ kind' = k /\ shape' = s /\ phase' = "res"
-    /\ resStore' = ResStoreAfterSlice(Mech, srcStore')
     /\ resTag' = [ v \in Vars |-> TagAfterSlice(v, s) ]
     /\ attrs' = AttrsAfterSlice(Mech, prov)
-    /\ hist' = Note(<< "slice", k, s, srcStore', resStore' >>)
     /\ UNCHANGED << prov, last, nPre, nAcc >>
 
 Access(v) ==
@@ -65,7 +66,7 @@ Access(v) ==
                                              THEN AccessOutcome(w, resStore, resTag, attrs, shape)
                                              ELSE resTag[w] ]
           /\ hist' = Note(<< "acc", v, o, resStore' >>)
-    /\ nAcc' = nAcc + 1
+    /\ nAcc' = IF WithHist THEN nAcc + 1 ELSE 1
     /\ UNCHANGED << prov, phase, srcStore, kind, shape, attrs, nPre >>
 
 Finish == /\ phase = "res" /\ nAcc >= 1
@@ -90,7 +91,7 @@ NoWrongValueStored == \A v \in resStore : resTag[v] = "ok"
 \* what a result reports does not depend on what was materialised on the source: with the intended
 \* mechanism the outcome of every access is "ok" in every reachable state, in particular for every srcStore
 (* ---- descriptive sanity --------------------------------------------------------- *)
-StoreClosed == srcStore = Closure(srcStore) /\ (phase # "src" => resStore \subseteq Closure(resStore))
+StoreClosed == srcStore = Closure(srcStore)
 (* ---- generation: print finished behaviours --------------------------------------- *)
 Emit == phase = "end" => PrintT(<< "B", prov, hist >>)
 =============================================================================
